@@ -118,6 +118,7 @@ def rule_C04(env):
             res.add("R04.a", "as_u8/%s/duplicate" % name, "byte 0x%02x is used by both %s and %s" % (byte, seen[byte], name), loc_t1)
         seen[byte] = name
     res.floor("R04.a", 68, "OpcodeKind variants")
+    PV.proto_invariant_premise(env, res, "C04")
     # R04.b: emission grammar, safe and unsafe configurations
     n_s, nd_s, samp_s = emission_findings(env, res, PV.get_trans(env, False), "safe")
     n_u, nd_u, samp_u = emission_findings(env, res, PV.get_trans(env, True), "unsafe")
